@@ -512,7 +512,11 @@ func (ctx Ctx) selectorMethod(f *ast.SelectorExpr, call *ast.CallExpr) coq.Expr 
 		}
 	}
 
-	namedTy := deref.(*types.Named)
+	namedTy, ok := deref.(*types.Named)
+	if !ok {
+		ctx.unsupported(f, "method call on a value of type %v", deref)
+		return nil
+	}
 	tyName := ctx.qualifiedName(namedTy.Obj())
 	callArgs := append([]ast.Expr{f.X}, args...)
 	fullName := coq.MethodName(tyName, f.Sel.Name)
@@ -1533,6 +1537,9 @@ func (ctx Ctx) defineStmt(s *ast.AssignStmt) coq.Binding {
 	//  iterations, so we can just conservatively disallow assignments within
 	//  loop bodies.
 
+	if len(s.Lhs) > 4 {
+		ctx.unsupported(s, "destructuring more than 4 return values")
+	}
 	var idents []*ast.Ident
 	for _, lhsExpr := range s.Lhs {
 		if ident, ok := lhsExpr.(*ast.Ident); ok {
@@ -1744,6 +1751,9 @@ func (ctx Ctx) multipleAssignStmt(s *ast.AssignStmt) coq.Binding {
 	if s.Tok != token.ASSIGN {
 		// This should be invalid Go syntax anyway
 		ctx.unsupported(s, "%v multiple assignment", s.Tok)
+	}
+	if len(s.Lhs) > 4 {
+		ctx.unsupported(s, "destructuring more than 4 return values")
 	}
 
 	names := make([]string, len(s.Lhs))
